@@ -260,7 +260,20 @@ def apply_rule_shape(ctx, rid, fs):
     sts = [n for n in loops if canon(n['slots']['range'], env, subst=False) == 'ratio::predicate::statements']
     ok_sup = len(sup) == 1 and any(m.get('callee_name') == 'ratio::predicate::apply_rule' for m in walk(sup[0]['slots']['body'])) and not any(m.get('k') in ('IfStmt', 'BreakStmt', 'ContinueStmt') for m in walk(sup[0]['slots']['body']))
     ok_sts = len(sts) == 1 and any((m.get('callee_name') or '').endswith('statement::execute') for m in walk(sts[0]['slots']['body'])) and not any(m.get('k') in ('IfStmt', 'BreakStmt', 'ContinueStmt') for m in walk(sts[0]['slots']['body']))
-    order = ok_sup and ok_sts and _pos(sup[0]) < _pos(sts[0])
+    def _flat(b):
+        for x in kids(b):
+            if x.get('k') == 'CompoundStmt':
+                yield from _flat(x)
+            else:
+                yield x
+    seq = list(_flat(f.body))           # the statements in the order they are executed (an inlined lambda / helper sits where it is called, not where it is written)
+
+    def _at(n):
+        for i, x in enumerate(seq):
+            if x is n or any(m is n for m in walk(x)):
+                return i
+        return -1
+    order = ok_sup and ok_sts and 0 <= _at(sup[0]) < _at(sts[0])
     ctx.instance(rid, [f.id, 'inheritance'], {'super_rules_applied': ok_sup, 'all_statements_executed': ok_sts, 'super_first': order})
     if not (ok_sup and ok_sts and order):
         ctx.finding(rid, f.id, 'inheritance', 'predicate::apply_rule must apply the rule of every super-predicate first and then execute every statement of its own rule', loc=f.loc)
